@@ -102,7 +102,7 @@ def plain_callable(draw, i):
         params = [(nm, kind, t, False if nm == ret_from else d) for (nm, kind, t, d) in params]
     ret_t = types[names.index(ret_from)]
     sig = ", ".join(parts)
-    form = draw(st.sampled_from(["func", "func", "method", "classmethod", "staticmethod", "init", "dataclass"]))
+    form = draw(st.sampled_from(["func", "func", "method", "classmethod", "staticmethod", "init", "dataclass", "bound-literal", "inherited"]))
     if form == "dataclass" and (var_t or kwv_t or kw_only_from < n):
         form = "func"
     if form == "func":
@@ -111,6 +111,21 @@ def plain_callable(draw, i):
     elif form == "method":
         defs = [f"class K{i}:", f"    def m(self, {sig}) -> {ret_t}:", f"        return {ret_from}"]
         callee = f"K{i}().m"
+    elif form == "bound-literal":
+        # a method looked up on a module-level instance that pyanalyze knows literally; the instance may be falsy
+        extra = draw(st.sampled_from([[], ["    def __len__(self) -> int:", "        return 0"], ["    def __bool__(self) -> bool:", "        return False"],
+                                      ["    def __len__(self) -> int:", "        return 2"]]))
+        kind = draw(st.sampled_from(["plain", "plain", "class", "static"]))
+        deco, first = {"plain": ([], "self, "), "class": (["    @classmethod"], "cls, "), "static": (["    @staticmethod"], "")}[kind]
+        defs = [f"class K{i}:"] + extra + deco + [f"    def m({first}{sig}) -> {ret_t}:", f"        return {ret_from}", f"INST{i} = K{i}()"]
+        callee = f"INST{i}.m"
+    elif form == "inherited":
+        # the method lives in a base class and is reached through a subclass: instance, class or module-level instance
+        kind = draw(st.sampled_from(["plain", "class", "static"]))
+        deco, first = {"plain": ([], "self, "), "class": (["    @classmethod"], "cls, "), "static": (["    @staticmethod"], "")}[kind]
+        defs = [f"class K{i}:"] + deco + [f"    def m({first}{sig}) -> {ret_t}:", f"        return {ret_from}", f"class Sub{i}(K{i}):", "    pass",
+                                         f"SUB{i} = Sub{i}()"]
+        callee = draw(st.sampled_from([f"Sub{i}().m", f"SUB{i}.m"] + ([f"Sub{i}.m"] if kind != "plain" else [])))
     elif form == "classmethod":
         defs = [f"class K{i}:", "    @classmethod", f"    def m(cls, {sig}) -> {ret_t}:", f"        return {ret_from}"]
         callee = f"K{i}.m"
